@@ -7,7 +7,6 @@ import (
 	"sort"
 	"time"
 
-	"github.com/internetarchive/Zeno/internal/pkg/controler"
 	"github.com/internetarchive/Zeno/internal/verif/vc"
 )
 
@@ -64,7 +63,7 @@ func c13PipeChild(scPath string) int {
 		return 2
 	}
 	pr.installHooks(false)
-	controler.Start()
+	pr.start(false)
 	verdict := pr.waitQuiescent(8*time.Second, 45*time.Second, 300*time.Second)
 	rep.Evaluations = 1
 	if verdict != "quiescent" {
